@@ -724,9 +724,11 @@ PipeCase(names, sn, r) ==
    q |-> SpellSeq(s, sp) \o PTailPieces(names, spc, sp.up, RotOff(r, names, sn), 1),
    nilmap |-> NilMappingToo(s), decl |-> DeclOf(DeclAt(k)), atoms |-> atoms, tt |-> TruthTable(F.x, atoms),
    exp |-> ref.out, pipes |-> ref.pipes, allowed |-> <<ref.out>>]
-\* the walk starts behind each of these (MaxLen counts the tokens behind the longest start the tail begins with)
-PStartLen(p) == IF Len(p) >= 3 /\ SubSeq(p, 1, 3) = <<"|", "fields", "except">> THEN 3
-                ELSE IF Len(p) >= 2 /\ SubSeq(p, 1, 2) = <<"|", "fields">> THEN 2 ELSE 0
+\* the walk starts behind each of these: nothing, the keyword(s) of a fields pipe, a complete pipe and the next bar
+\* (MaxLen counts the tokens behind the longest start the tail begins with)
+PipeStarts == {<<>>, <<"|", "fields">>, <<"|", "fields", "except">>, <<"|", "fields", "a", "|">>}
+PStartLen(p) == LET L == {Len(st) : st \in {x \in PipeStarts : Len(x) <= Len(p) /\ SubSeq(p, 1, Len(x)) = x}} IN
+                CHOOSE n \in L : \A m \in L : m <= n
 
 \* ======================================================================
 \* (iii) totality walk
@@ -815,7 +817,8 @@ RandTree(n) ==
          [] o = "not" -> Not(RandTree(n - 1))
          [] OTHER -> Bin(o, RandTree(n - 1), RandTree(n - 1))
 
-Init == /\ sty = NoSty /\ grown = FALSE /\ pre = WalkStart /\ rep = 0
+Init == /\ sty = NoSty /\ grown = FALSE /\ rep = 0
+        /\ IF Mode = "pipe" THEN pre \in PipeStarts ELSE pre = WalkStart
         /\ IF Mode = "tree" THEN tr \in T(IF Depth > 0 THEN Depth - 1 ELSE 0) ELSE tr = NoTree
 
 Grow == /\ Mode = "tree" /\ ~grown /\ sty = NoSty /\ Depth > 0
